@@ -151,12 +151,79 @@ def many_contigs(ctx):
             shutil.rmtree(d, ignore_errors=True)
 
 
+def retried_partitions(ctx):
+    """a conversion that succeeds after one of its partition tasks was killed (at a random file-system
+    mutation, the file being written optionally torn) and retried -- once or twice -- is a successful
+    conversion: its store must be as self-consistent as any other (complete grid, no stray files)"""
+    from bio2zarr import vcf2zarr
+
+    from drivers import c05
+
+    r = ctx.rnd
+    done = 0
+    for i in range(ctx.n(40, 200)):
+        if done >= ctx.n(10, 40):
+            break
+        seed = ctx.seed * 11 + 90000 + i
+        case = gen_case(r, seed)
+        if not case["samples"] or len(case["recs"]) < 3:
+            continue
+        d = os.path.join(ctx.work, f"c02_retry_{i}")
+        os.makedirs(d)
+        try:
+            p = vcfgen.make_indexed(d, "in", absvcf.to_text(case), kind="tbi")
+            icf = os.path.join(d, "s.icf")
+            vcf2zarr.explode(icf, [p], worker_processes=0)
+            n, ns = len(case["recs"]), len(case["samples"])
+            out = os.path.join(d, "o.vcz")
+            cfg = dict(variants_chunk_size=r.choice([1, 2]), samples_chunk_size=r.choice([1, 2, None]), dimension_separator=r.choice([None, "/", "."]))
+            np_ = vcf2zarr.encode_init(icf, out, r.choice([2, 3]), **cfg).num_partitions
+            j = r.randrange(np_)
+            src = f"vcf2zarr.encode_partition({out!r}, {j})"
+            # how many mutations the task performs: measured on a copy
+            probe = os.path.join(d, "probe.vcz")
+            shutil.copytree(out, probe)
+            log = os.path.join(d, "audit.log")
+            c05.run_cmd(f"vcf2zarr.encode_partition({probe!r}, {j})", log=log, root=probe)
+            events = [ln.split("\t") for ln in open(log)] if os.path.exists(log) else []
+            events = [e for e in events if e and e[0].isdigit()]
+            total = len(events)
+            renames = [int(e[0]) for e in events if "rename" in e[1] and int(e[0]) > 0]   # chunk files being moved into place
+            shutil.rmtree(probe, ignore_errors=True)
+            if total < 3:
+                continue
+            kills = []
+            for _ in range(r.choice([1, 1, 2])):
+                k = r.choice(renames) if renames and r.random() < 0.6 else r.randrange(1, total)
+                tear = r.choice([None, "half", "0"])
+                rc, _err = c05.run_cmd(src, crash=f"{k}:{tear}" if tear else str(k))
+                kills.append([k, tear, rc])
+            doc = dict(gen_seed=seed, records=n, samples=ns, kind="retried-partition", partitions=np_, partition=j, kills=kills, mutations=total, **cfg)
+            ctx.case(doc, nontrivial=True)
+            ctx.count("mode:retried-partition")
+            try:
+                order = list(range(np_))
+                r.shuffle(order)
+                for q in order:
+                    vcf2zarr.encode_partition(out, q)
+                vcf2zarr.encode_finalise(out)
+            except Exception as e:  # noqa: BLE001
+                ctx.fail(doc, dict(error=f"{type(e).__name__}: {e}"[:300]), "retrying a killed partition task and finishing the conversion failed")
+                continue
+            check_store(ctx, doc, out, n, ns, expect_index=False)
+            ctx.traces_validated += 1
+            done += 1
+        finally:
+            shutil.rmtree(d, ignore_errors=True)
+
+
 def run(ctx):
     from bio2zarr import vcf2zarr
     from bio2zarr.vcf2zarr import icf as icf_mod
     from bio2zarr.vcf2zarr import vcz
 
     many_contigs(ctx)
+    retried_partitions(ctx)
     r = ctx.rnd
     for i in range(ctx.n(60, 600)):
         seed = ctx.seed * 11 + 70000 + i
